@@ -32,7 +32,9 @@ RULE = ("rename: thousands of names with '(N)' / '-N' suffixes around 9/10, 99/1
         "conflicting response / competing probe at a chosen phase, then queries of every type, unregister; two or three "
         "daemons registering one instance at offsets 0..3 s; two daemons claiming one host name with record lists of which "
         "one is a proper prefix of the other ({A} against {A, AAAA}) at offsets 0..700 ms, competing probes whose authority "
-        "list extends / is a prefix of / equals the daemon's own. Non-trivial = not SKIP and (for histories) at least one packet")
+        "list extends / is a prefix of / equals the daemon's own; two or three services sharing a host name that a conflicting "
+        "address record renames while they probe, then unregister of one, questions under the old and the new host name, "
+        "an update and the unregistration of the rest (160). Non-trivial = not SKIP and (for histories) at least one packet")
 TRUSTED = [
     "Coq 8.16.1 kernel (coqc); vm_compute only in Examples and witness lemmas",
     "axioms: none (Print Assumptions: Closed under the global context for every theorem)",
